@@ -29,6 +29,7 @@ static void setA(const int *d, vcase *c)
     c->trans = d[6]; c->equil = d[7]; common_flags(c, d[8]); c->stor = d[9]; c->nrhs = 1 + 2 * d[10]; c->ldbx = d[10] * 2; c->rhs = (d[0] + d[1]) % 5; c->permid = -1;
     if (g_mode == 5) c->nrhs = 1 + d[10];
     if (g_mode == 12) c->nrhs = d[10] ? 0 : 1;      /* B with no columns: factor, growth and condition estimate only */
+    if (g_mode == 13) c->cond = (d[0] ^ d[1]) & 1;   /* with ConditionNumber on, an ill-conditioned matrix returns info = n+1: X, FERR and BERR are computed all the same */
 }
 /* B: ALL(4) x vals2 x trans3 x equil2 x stor2 x type4 (refine, ordering, tuning derived from the pattern index) */
 static void setB(const int *d, vcase *c)
@@ -42,6 +43,7 @@ static void setC(const int *d, vcase *c)
 {
     c->n = c->m = 6; c->pat = dev1_pattern(6, base_pattern(6, d[0]), d[1]); c->vals = (g_mode == 5 ? VALS_X[d[2]] : VALS_K[d[2]]); c->colperm = d[3]; c->trans = d[4]; c->equil = d[5];
     common_flags(c, d[6]); c->stor = d[7]; set_tune(c, TUNE_X[d[8]]); c->type = d[9]; c->u = U_LIST[d[1] % 2]; c->nrhs = 1 + (d[1] % 3 == 0) * 2; c->ldbx = d[1] % 2; c->rhs = d[1] % 5; c->permid = -1;
+    if (g_mode == 13) c->cond = (d[1] ^ d[2]) & 1;
 }
 /* D: orders 10, 12, 16 with generated patterns (structured bases incl. block and interleaved-chain kinds, pseudo-random ones): wide panels, several supernodes, real fill */
 static void setD(const int *d, vcase *c)
@@ -276,7 +278,7 @@ static void run_C13(const vcase *c, vres *r)
     xrun X; x_run(c, &X); r->outcome = x_outcome(c, &X);
     long info = X.s.info;
     if (info >= 1 && info <= n) { r->status = 2; goto done; }
-    if (info != 0) { wk_fail(r, "unexpected-info", "info=%ld", info); goto done; }
+    if (info != 0 && !(info == n + 1 && c->cond)) { wk_fail(r, "unexpected-info", "info=%ld", info); goto done; }
     r->nontrivial = (n >= 2);
     char e = X.s.equed[0]; int rowequ = (e == 'R' || e == 'B'), colequ = (e == 'C' || e == 'B');
     int notran_eff = (c->trans == 0); if (c->stor == 1) notran_eff = !notran_eff;
